@@ -392,6 +392,7 @@ def run_launch(tier, seed, fails, mism, tags, samples):
                 m = min(n, 5000)
                 expect.append(f"cnt {m} sum {m * (m - 1) // 2} range true")
                 ctxs.append({"op": "exec", "n": m, "block": block, "target": tg})
+    seen_marks = []
     with common.scratch_cwd() as tmp:
         for k in range(nk):
             name, lim, src, files, weights, count, expr_bound = gen_kernel(r, k)
@@ -408,8 +409,21 @@ def run_launch(tier, seed, fails, mism, tags, samples):
                 try:
                     c = xo.ContextCpu(omp_num_threads=nthr)
                     tags[f"ctx.{cname}.{nthr}"] += 1
+                    # every build brings a header of its own; the text that is compiled is saved and inspected: nothing of an EARLIER
+                    # build (another kernel, another context object) may be in it - "all unannotated source text passes through
+                    # unchanged", and nothing else comes in
+                    mark = f"XO_VERIF_HDR_{k}_{cname}_{nthr}"
+                    saved = os.path.join(tmp, f"built_{k}_{cname}_{nthr}.c")
                     c.add_kernels(sources=[src], kernels={name: xo.Kernel(args=[xo.Arg(xo.Int32, name=lim), xo.Arg(xo.Int32, pointer=True, name="cnt"), xo.Arg(xo.Float64, pointer=True, name="y")], n_threads=lim)},
-                                  extra_headers=["#include <stdint.h>"])
+                                  extra_headers=["#include <stdint.h>", f"#define {mark} 1"], save_source_as=saved)
+                    built = open(saved).read() if os.path.exists(saved) else ""
+                    seen_marks.append(mark)
+                    foreign = [m_ for m_ in seen_marks if m_ != mark and m_ in built]
+                    if mark not in built:
+                        fails.append(common.Failure("oracle", "C16:extra-header-missing", f"{cname}: the header given to this build is not in the compiled text", ctx))
+                    if foreign:
+                        fails.append(common.Failure("oracle", "C16:text-of-an-earlier-build", f"{cname} (omp_num_threads={nthr}): the compiled text of kernel {name} contains {foreign[:3]}, header text given to EARLIER builds only", ctx))
+                    tags["built-text-inspected"] += 1
                 except Exception as ex:
                     fails.append(common.Failure("oracle", "C16:cpu-build-fails", f"{cname}: {type(ex).__name__} {str(ex)[:300]} for {src[:300]!r}", ctx))
                     continue
